@@ -118,7 +118,9 @@ Section Methods.
     exists offs, rstitched fuel (urd_open fuel b 0) 0 (h_answers h) out EEof offs.
   Proof.
     intros Hd. unfold ehrv_read in Hd.
-    destruct (vr_complete_under_init H cfg _ (ehr_read fuel) fuel (ehr_no_unexp fuel) _ _ _ Hd) as (Hu & Hl & Hh).
+    assert (HP : forall cap s c e s', True -> ehr_read fuel cap s = ((c, e), s') -> e <> EUnexp /\ (e = ENone -> True))
+      by (intros cap s c e s' _ Hr; split; [exact (ehr_no_unexp _ _ _ _ _ _ Hr)|auto]).
+    destruct (vr_complete_under_init H cfg _ (ehr_read fuel) fuel (fun _ => True) HP _ _ _ Logic.I Hd) as (Hu & Hl & Hh).
     destruct (ehr_stitched _ _ _ _ _ Hu) as (offs & Hs & _). cbn in Hs. eauto.
   Qed.
 
